@@ -161,6 +161,24 @@ pub fn debug_profiling_call_matches(prefix: &crate::nodes::Prefix) -> bool {
     result
 }
 
+/// `inject_global_value`'s per-node step on an expression (identifier, `_G.NAME`, `_G["NAME"]`).
+pub fn inject_value_process_expression(
+    identifier: &str,
+    value: crate::nodes::Expression,
+    expression: &mut crate::nodes::Expression,
+) {
+    crate::rules::verif_inject_process_expression(identifier, value, expression)
+}
+
+/// `inject_global_value`'s per-node step on a prefix (`NAME.field`, `NAME(...)`).
+pub fn inject_value_process_prefix(
+    identifier: &str,
+    value: crate::nodes::Expression,
+    prefix: &mut crate::nodes::Prefix,
+) {
+    crate::rules::verif_inject_process_prefix(identifier, value, prefix)
+}
+
 // ---------------------------------------------------------------------------------------------
 // append_text_comment
 
